@@ -59,7 +59,7 @@ class C13(Prop):
     ]
     rule = ("exhaustive: all profiles of <= 3 distinct orders over 3 alternatives and <= 2 over 4; random m<=6, n<=5 "
             "against brute force over spanning trees; planted tree-single-peaked profiles up to m=25 and one-swap "
-            "perturbations; non-trivial = >= 2 orders and >= 3 alternatives")
+            "perturbations; non-trivial = >= 2 orders and >= 3 alternatives (ids: 1..m, 0-based, shifted, sparse, near 2^31 / 2^62 / 10^18, decimal spellings that collide when concatenated, multiples of m apart); 30 % of the cases carry multiplicities and 25 % are built in two stages on one object through the append_* entry points (vote_map / order_list / order / int64 and object order_array, part of a stored order's multiplicity held back) with a query in between")
     budget = {"quick": 1000, "thorough": 20000}
     anchors = [("preflibtools.properties.subdomains.ordinal.singlepeaked.single_peaked_tree", n) for n in
                ("is_single_peaked_on_tree", "get_B", "get_bottom_alts", "restrict_preferences")]
